@@ -32,16 +32,26 @@ class VClock(object):
             self.t = t
 
 
+def _modules():
+    """every loaded adb_shell module outside adb_shell.transport (real sockets keep real time) that has a module attribute `time`"""
+    import sys
+    from . import repo  # noqa: F401  (makes sure the package is imported from the tree under test)
+    out = []
+    for name, mod in list(sys.modules.items()):
+        if mod is None or not (name == "adb_shell" or name.startswith("adb_shell.")) or name.startswith("adb_shell.transport"):
+            continue
+        t = getattr(mod, "time", None)
+        if t is not None and (isinstance(t, VClock) or getattr(t, "__name__", None) == "time"):
+            out.append(mod)
+    return out
+
+
 def install(clock):
-    from . import repo
-    repo.adb_device.time = clock
-    if repo.adb_device_async is not None:
-        repo.adb_device_async.time = clock
+    for mod in _modules():
+        mod.time = clock
 
 
 def uninstall():
     import time
-    from . import repo
-    repo.adb_device.time = time
-    if repo.adb_device_async is not None:
-        repo.adb_device_async.time = time
+    for mod in _modules():
+        mod.time = time
